@@ -133,6 +133,9 @@ func forwardCheckPoint(ctx context.Context, nodeKey string) context.Context {
 		return ctx
 	}
 	if subCP, ok := cp.SubGraphs[nodeKey]; ok {
+		// a nested checkpoint resumes the interrupted execution of the sub graph only:
+		// later executions of the same node in this run (loops) must start fresh
+		delete(cp.SubGraphs, nodeKey)
 		return context.WithValue(ctx, checkPointKey{}, subCP)
 	}
 	return context.WithValue(ctx, checkPointKey{}, (*checkpoint)(nil))
